@@ -40,7 +40,7 @@ func (r *rep) Violation(group, class, detail string, transcript []string, cfg me
 	}
 	r.w.Violation(sigOf(class), fmt.Sprintf("%s: %s", class, detail), map[string]interface{}{"class": class, "detail": detail, "transcript": transcript, "cfg": cfg})
 }
-func (r *rep) Class(c string)               { r.w.Class(c) }
+func (r *rep) Class(c string)              { r.w.Class(c) }
 func (r *rep) Metric(name string, n int64) { r.w.Metric(name, n) }
 
 func body(w *hx.W) {
@@ -59,6 +59,7 @@ func body(w *hx.W) {
 		w.Case(uint64(seed))
 	}
 	_ = strings.ToUpper
+	concurrentPhase(w)
 }
 
 func replay(w *hx.W, raw json.RawMessage) {
@@ -77,9 +78,10 @@ func main() {
 	hx.Main(hx.Spec{
 		ID:    "C09",
 		Level: "exploration",
-		Rule:  "seeded histories of 50 commands (CREATE/DELETE/RENAME/SUBSCRIBE/LIST/LSUB/STATUS/APPEND/SELECT/EXAMINE/STORE/COPY/MOVE/EXPUNGE/UID EXPUNGE/SEARCH/FETCH/NOOP/IDLE/CLOSE/UNSELECT, UID and non-UID forms) by 1..3 sessions over 2..4 mailboxes, messages generated from MIME trees (nesting depth 3, message/rfc822, multipart, folded headers), all search keys with NOT/OR/group nesting and RETURN options, body sections with part paths, HEADER.FIELDS(.NOT), MIME, partial ranges with offsets and sizes up to 2^63-1, LIST patterns with references, with and without IMAP4rev2 enabled; every 5th history also appends malformed messages (crash probing only)",
+		Rule:  "seeded histories of 50 commands (CREATE/DELETE/RENAME/SUBSCRIBE/LIST/LSUB/STATUS/APPEND/SELECT/EXAMINE/STORE/COPY/MOVE/EXPUNGE/UID EXPUNGE/SEARCH/FETCH/NOOP/IDLE/CLOSE/UNSELECT, UID and non-UID forms) by 1..3 sessions over 2..4 mailboxes, messages generated from MIME trees (nesting depth 3, message/rfc822, multipart, folded headers), all search keys with NOT/OR/group nesting and RETURN options, body sections with part paths, HEADER.FIELDS(.NOT), MIME, partial ranges with offsets and sizes up to 2^63-1, LIST patterns with references, with and without IMAP4rev2 enabled; every 5th history also appends malformed messages (crash probing only); plus concurrent histories: 2..8 sessions x 25..54 commands where every message carries a unique token and is only touched by its owner (APPEND, UID STORE, STORE by sequence number, UID COPY, UID MOVE, \\Deleted + UID EXPUNGE, UID FETCH, UID SEARCH by token), so that the outcome is independent of the interleaving; GOMAXPROCS in {1,2,4,16}, yields at the lock boundaries of imapserver / imapmemserver; every mailbox audited at quiescence",
 		Assumptions: []string{
-			"commands are issued one at a time, so the history is sequential and the model exact; a session's sequence numbers are interpreted against the view the server has announced on that connection",
+			"concurrent histories: operations of different sessions commute because each message is touched by its owner only, so the per-session sequential models determine the final content of every mailbox exactly; a command that gets no reply ends the history without a verdict (completion and deadlocks are C14's subject)",
+			"sequential histories: commands are issued one at a time, so the history is sequential and the model exact; a session's sequence numbers are interpreted against the view the server has announced on that connection",
 			"latitude granted: a stale session addressing an already removed message gets it skipped; UID SEARCH may or may not report messages not yet announced; BODY[n.MIME]/HEADER/TEXT combinations RFC 3501 leaves undefined, and malformed messages, are only required not to crash; LIST may add \\Noselect/\\NonExistent placeholders for missing parents; SUBSCRIBE of a missing mailbox may be refused or accepted; COPY onto the selected mailbox may be refused; partial numbers above 2^32-1 may be answered BAD",
 			"not generated: DELETE of a mailbox that a session has selected, RENAME of INBOX, RENAME whose new inferior names would collide with existing mailboxes, state-changing commands under EXAMINE (the server documents read-only enforcement as not implemented)",
 		},
